@@ -95,7 +95,12 @@ def run(ctx):
         if not in_frame_after:
             continue
         ctx.count("R-C02-CRCFEED")
-        raw0, raw1 = o["obj0"].elems[an.i_raw].lin, o["obj"].elems[an.i_raw].lin
+        # consumed bytes are observed through reset() (pending_of), not through a particular counter field
+        try:
+            raw0, raw1 = pending_lin(A, an, st, o["obj0"]), pending_lin(A, an, st, o["obj"])
+        except Unsupported as e:
+            ctx.violation("R-C02-CRCFEED", "partition=%s|%s|observer" % (key, lab), where, str(e))
+            continue
         s0, s1 = step_of(o["obj0"], st), step_of(o["obj"], st)
         if in_frame_before and lab == "Ok(false)":
             dg = o["dfed"] - (raw1 - raw0) + (s1 - s0)
@@ -191,7 +196,7 @@ def check_push_discipline(ctx, an, outs, where):
             continue
         obj0, obj1 = o["obj0"], o["obj"]
         post = an.variant_of(st, obj1)
-        zc0, zc1 = obj0.elems[an.i_zc].lin, obj1.elems[an.i_zc].lin
+        zc0, zc1 = zc_of(an, obj0).lin, zc_of(an, obj1).lin
         pushed = o["pushed"]
         cleared = o["cleared_at"]
         b = o["args"][2] if len(o["args"]) > 2 else None
